@@ -1,4 +1,5 @@
-// driver TU for C10 (bounded queue): instantiation by use.
+// driver TU for C10 (bounded queue): instantiates by use limited_queue<int> (ctor, push, pop incl. the future-constructor lambda, unblock_push, inherited size/empty, dtor).
+// The extern "C" wrappers are also the roots of the history-lemma unit (specs/C10/units.py).
 #include <cocls/queue.h>
 using namespace cocls;
 extern "C" {
